@@ -242,3 +242,58 @@ def rule_pinned_ends(db, chk, cfg, rule="END.pinned"):
                 chk.violation(rule, f.qual, "distSqr[%s]" % v, "the pinned distance of an end point can be overwritten: %s; the end point of an "
                               "open path can then be removed" % why, where(x), cfg=cfg)
     return n
+
+
+def rule_trim_last_kept(db, chk, cfg, rule="TRIM.last-kept"):
+    """TrimCollinear's main loop decides whether the candidate vertex is a corner of the *output*: the collinearity test must
+    be made against the last vertex that was kept (the one most recently appended to the result), the candidate, and the next
+    input vertex.  Testing against the raw previous input vertex instead drops real corners after a removed or repeated
+    vertex (area not preserved) and leaves collinear triples in the result (not idempotent)."""
+    from ..astq import if_parts
+    n = 0
+    for f in db.find("TrimCollinear"):
+        if len(f.params) != 2:
+            continue                    # the PathD wrapper (path, precision, is_open) forwards to the Path64 overload
+        loops = [x for x in kids(f.body) if x.get("kind") == "ForStmt"]
+        sites = []
+        for lp in loops:
+            for x in walk(kids(lp)[-1]):
+                if x.get("kind") != "IfStmt":
+                    continue
+                cond, then, els = if_parts(x)
+                calls = [y for y in walk(cond) if y.get("kind") == "CallExpr" and db.callee(y)[0] == "IsCollinear"]
+                apps = [y for y in walk(then) if y.get("kind") == "CXXMemberCallExpr" and db.callee(y)[0] in ("emplace_back", "push_back")]
+                if len(calls) == 1 and apps:
+                    sites.append((lp, x, calls[0], then, apps))
+        if len(sites) != 1:
+            raise AnalysisBroken("main loop of TrimCollinear (`if (!IsCollinear(last kept, candidate, next)) keep`) not found uniquely (%d)" % len(sites))
+        lp, node, call, then, apps = sites[0]
+        args = [canon(a) for a in db.call_args(call)]
+        dst = canon(db.member_base(apps[0]))
+        appended = canon(db.call_args(apps[0])[0])          # e.g. (*prevIt)
+        kept_iter = appended.strip("()").lstrip("*")
+        # the cursor of the loop: the variable its increment advances
+        inc = kids(lp)[3] if len(kids(lp)) > 3 else None
+        cursor = None
+        if inc:
+            for y in walk(inc):
+                if y.get("kind") == "DeclRefExpr" and y.get("referencedDecl", {}).get("kind") in ("VarDecl", "ParmVarDecl"):
+                    cursor = y.get("referencedDecl", {}).get("name")
+                    break
+        if cursor is None:
+            raise AnalysisBroken("TrimCollinear: loop cursor not recognised")
+        accepted_first = {"(*%s)" % kept_iter, "%s.back()" % dst, "%s[(%s.size() - 1)]" % (dst, dst)}
+        # the kept iterator must be re-pointed to the candidate in the keep branch (so that it *is* the last kept vertex)
+        repointed = kept_iter == cursor or any(canon(y).strip("()") == "%s = %s" % (kept_iter, cursor) for y in walk(then)
+                                               if y.get("kind") in ("BinaryOperator", "CXXOperatorCallExpr"))
+        ok = args[0] in accepted_first and args[1] == "(*%s)" % cursor and args[2] in ("(*(%s + 1))" % cursor, "(*next(%s))" % cursor) and \
+            (repointed or args[0] != "(*%s)" % kept_iter)
+        n += 1
+        chk.instance(rule, {"function": f.qual, "sig": f.sig[:50], "test": canon(call), "last_kept": sorted(accepted_first), "cfg": cfg}, ok=ok)
+        if not ok:
+            chk.violation(rule, f.qual, "main-loop", "the corner test of TrimCollinear's main loop is `%s`; it must compare the last kept vertex (%s), "
+                          "the candidate (*%s) and the next input vertex - otherwise corners next to removed or repeated vertices are lost"
+                          % (canon(call), " or ".join(sorted(accepted_first)), cursor), where(call), cfg=cfg)
+    if n == 0:
+        raise AnalysisBroken("TrimCollinear(Path64, bool) not found")
+    return n
